@@ -158,11 +158,72 @@ func ammoOf(kind, path string) ([]string, []string, bool) {
 	return out, dig, true
 }
 
+// runCase with its own two-stage watchdog: a case normally takes milliseconds; one that has not finished after
+// softLimit is given until hardLimit (a loaded or cold machine), and when it still has not finished the observation is
+// SLOW, which the model driver counts as `skip:inconclusive-timeout` — never as a failure (the framework's own HANG
+// limit is set above hardLimit)
+const (
+	softLimit = 20 * time.Second
+	hardLimit = 150 * time.Second
+)
+
 func runCase(input string) string {
+	done := make(chan string, 1)
+	go func() {
+		defer func() {
+			if r := recover(); r != nil {
+				done <- "PANIC " + drv.Clean(fmt.Sprint(r))
+			}
+		}()
+		done <- runCase1(input)
+	}()
+	select {
+	case o := <-done:
+		return o
+	case <-time.After(softLimit):
+	}
+	select {
+	case o := <-done:
+		return o
+	case <-time.After(hardLimit - softLimit):
+		return "SLOW no result within " + hardLimit.String()
+	}
+}
+
+var bigCount = regexp.MustCompile(`[0-9]{6,}`)
+
+// tooLarge: the ammo list of the description would have millions of entries (a weight or a step multiplier of six or
+// more digits; 20-digit numbers overflow strconv.Atoi and are refused, which is cheap): not run
+func tooLarge(d *Node) bool {
+	scs := d.get("scenario")
+	if scs == nil {
+		return false
+	}
+	for _, sc := range scs.L {
+		if w := sc.get("weight"); w != nil && w.K == 'i' && w.I > 100000 {
+			return true
+		}
+		if rs := sc.get("requests"); rs != nil {
+			for _, x := range rs.L {
+				for _, run := range bigCount.FindAllString(x.S, -1) {
+					if len(run) <= 19 {
+						return true
+					}
+				}
+			}
+		}
+	}
+	return false
+}
+
+func runCase1(input string) string {
 	m := drv.KV(input)
 	d, err := decodeTree(m["d"])
 	if err != nil {
 		return "BADINPUT " + err.Error()
+	}
+	if tooLarge(d) {
+		return "SLOW not run: the ammo list would have millions of entries"
 	}
 	sx, _ := strconv.ParseInt(m["sx"], 10, 64)
 	fancy := 0
@@ -782,7 +843,7 @@ func line(sx int64, mal int, d *Node) string {
 }
 
 func generate(r *rand.Rand, tier string) []string {
-	n := 500
+	n := 1500
 	if tier == "thorough" {
 		n = 100000
 	}
@@ -802,7 +863,7 @@ func generate(r *rand.Rand, tier string) []string {
 		out = append(out, line(r.Int63n(1<<40), mal, d))
 	}
 	// exhaustive small enumerations: all of them in the thorough tier, a random sample in the quick tier
-	k := 40
+	k := 150
 	if tier == "thorough" {
 		k = 0
 	}
@@ -827,7 +888,7 @@ func main() {
 		Run:     runCase,
 		Class:   class,
 		Workers: workers,
-		Timeout: 30 * time.Second,
+		Timeout: hardLimit + 30*time.Second,
 		Rule: "random scenario descriptions (http requests or grpc calls, all registered variable sources / processors / templaters, 1-3 scenarios " +
 			"with weights, min_waiting_time, multipliers and sleeps; optional fields present, absent or present-and-zero; strings drawn from realistic " +
 			"values, YAML-1.1-special words, unicode incl. line separators/BOM, whitespace/newline shapes, HCL template characters) are printed by the " +
